@@ -43,6 +43,9 @@ class Table:
         key = (st["closed"], tuple((a, b) for a, b in st["store"]), st["seq"])
         return self._ref("x", key, "sstate", lambda: "mkState %s %s %s" % (gbool(st["closed"]), self.store(st["store"]), gN(st["seq"])))
 
+    def sidlist(self, l):
+        return self._ref("k", tuple(l), "list bytes", lambda: glist(self.s(x) for x in l))
+
     def header(self):
         return HDR + "\n".join(self.defs) + "\n"
 
@@ -58,7 +61,8 @@ def matrix_term(tbl, r):
     rnd = glist(gpair(gN((seq + i) % 2 ** 32), gbytes(b)) for i, b in enumerate(r["rnd"]))
     rs = r["resp"]
     obs = gpair(gN(rs["status"]), gopt(gN(rs["code"]) if rs["code"] >= 0 else None), tbl.s(rs["sid"]), gN(BODY[rs["body"]]))
-    return "(%s : mcase)" % gpair(tbl.state(r["pre"]), g_req(tbl, r["req"]), rnd, obs, tbl.state(r["post"]))
+    return "(%s : mcase)" % gpair(tbl.state(r["pre"]), g_req(tbl, r["req"]), rnd, obs, tbl.state(r["post"]),
+                                   tbl.sidlist(r.get("closedsids") or []))
 
 
 def eval_multi(ctx, name, header, terms, fns, shard=800):
@@ -109,7 +113,8 @@ def describe(r):
                 "&j" if q["j"] else "", " [websocket upgrade]" if q["wsup"] else "", " [Authenticator refuses]" if q["deny"] else "",
                 "closed" if r["pre"]["closed"] else "running", len(r["pre"]["store"]), r["resp"]["status"],
                 r["resp"]["code"] if r["resp"]["code"] >= 0 else "none", r["resp"]["sid"],
-                len(r["pre"]["store"]), len(r["post"]["store"])))
+                len(r["pre"]["store"]), len(r["post"]["store"]))
+            + ((" [no HTTP answer: %s]" % r["err"][:120]) if r.get("err") else ""))
 
 
 def finding_key(r):
@@ -127,7 +132,22 @@ def matrix_suite(ctx, vh):
     if rows is None:
         return
     close_rows = [r for r in rows if r.get("phase") == "close"]
-    rows = [r for r in rows if r.get("phase") != "close"]
+    cs_rows = [r for r in rows if r.get("phase") == "closed-sessions"]
+    rows = [r for r in rows if r.get("phase") not in ("close", "closed-sessions")]
+    # sessions closed by every cause must have left the store (the requests that carry their sids are judged below)
+    for r in cs_rows:
+        bad = r.get("not_gone") or []
+        ctx.count(len(r["sids"]), nontrivial_key=None, dist="closed-sessions")
+        for cause in sorted(set(r["causes"])):
+            ctx.count(0, nontrivial_key=("closed-by", cause))
+        ctx.obligation("oracle:closed-sessions-leave-the-store", "oracle", not bad,
+                       "%d sessions closed by %s; still in the store: %s" % (len(r["sids"]), sorted(set(r["causes"])), bad))
+        for b in bad[:2]:
+            ctx.violation("a session closed by cause %r (sid %s) is still in the server's store 2 s later: its sid keeps "
+                          "being served as a live session" % (b["cause"], b["sid"]),
+                          {"kind": "failing-input", "engine": "eiohttp -mode matrix (phase closed-sessions)", "case": b})
+    if not cs_rows:
+        ctx.violation("matrix run has no closed-sessions phase", {"kind": "correspondence-broken", "suite": "request-matrix"}, no_input=True)
     tbl = Table()
     terms = [matrix_term(tbl, r) for r in rows]
     hdr = tbl.header()
@@ -144,7 +164,7 @@ def matrix_suite(ctx, vh):
     ctx.obligation("correspondence:request-matrix", "correspondence", not bad_agree,
                    "%d requests, %d disagree with Eio/Handshake.v serve" % (len(rows), len(bad_agree)))
     seen = set()
-    for i in bad_oracle:
+    for i in sorted(bad_oracle, key=lambda i: (rows[i]["req"]["eio"] != "4", rows[i]["req"]["method"] not in ("GET", "POST"), i)):
         r = rows[i]
         k = (finding_key(r), r["req"]["method"], r["req"]["sidkind"], r["resp"]["status"], r["resp"]["code"])
         if k in seen or len(seen) >= 4:
